@@ -946,9 +946,11 @@ class Frame(object):
         signal : ndarray
             Two-dimensional NumPy array containing synthetic signal data
         """
-        f_start = unit_utils.get_value(f_start, u.Hz)
-        drift_rate = unit_utils.get_value(drift_rate, u.Hz / u.s)
-        width = unit_utils.get_value(width, u.Hz)
+        # As floats: the bounding box and sub-step arithmetic below overflows for narrow 
+        # numpy integer widths or drift rates (2 * np.int8(100), abs(np.int8(-128)))
+        f_start = float(unit_utils.get_value(f_start, u.Hz))
+        drift_rate = float(unit_utils.get_value(drift_rate, u.Hz / u.s))
+        width = float(unit_utils.get_value(width, u.Hz))
 
         start_index = self.get_index(f_start)
 
